@@ -50,8 +50,22 @@ def main():
     for f in sorted(glob.glob(os.path.join(HERE, "seeded", "*", "patch.diff"))):
         sid = os.path.basename(os.path.dirname(f))
         jobs.append(("seed-" + sid, os.path.relpath(f, HERE), False, base))
+    old = []
+    if "--new-only" in sys.argv or "--only" in sys.argv:
+        # incremental: keep the recorded entries, evaluate only the mutants that are not recorded yet (--new-only) or the ones
+        # named after --only, and merge
+        old = json.load(open(os.path.join(HERE, "selftest", "mutants.json")))
+        if "--only" in sys.argv:
+            names = set(sys.argv[sys.argv.index("--only") + 1:])
+            jobs = [j for j in jobs if j[0] in names]
+        else:
+            have = set(r["id"] for r in old)
+            jobs = [j for j in jobs if j[0] not in have]
+        redo = set(j[0] for j in jobs)
+        old = [r for r in old if r["id"] not in redo]
     with ProcessPoolExecutor(max_workers=int(os.environ.get("WV_JOBS", "16"))) as ex:
         res = list(ex.map(one, jobs))
+    res = sorted(old + res, key=lambda r: r["id"])
     json.dump(res, open(os.path.join(HERE, "selftest", "mutants.json"), "w"), indent=1)
     for r in res:
         props = sorted(r["expected"])
